@@ -64,6 +64,38 @@ static void do_build(hctx* h, const el_t* e, int n, const char* find) {
     free_c(c, n);
 }
 
+/* the element list as the schema of a FILE (footer written with carquet's own Thrift writer, no row groups), opened through
+ * carquet_reader_open_buffer: what the reader exposes after the footer parser, its limits and build_schema */
+#include "core/buffer.h"
+static void do_schema_file(hctx* h, const el_t* e, int n) {
+    fprintf(h->out, "schema_file els="); print_els(h, e, n); h_call(h);
+    parquet_schema_element_t* c = to_c(e, n);
+    parquet_file_metadata_t md; memset(&md, 0, sizeof md);
+    md.version = 1; md.schema = c; md.num_schema_elements = n; md.num_rows = 0; md.row_groups = NULL; md.num_row_groups = 0;
+    carquet_buffer_t fb; carquet_buffer_init(&fb);
+    carquet_error_t err; memset(&err, 0, sizeof err);
+    if (parquet_write_file_metadata(&md, &fb, &err) != CARQUET_OK) { fprintf(h->out, " | skipped=1 triv=1\n"); h->n_lines++; carquet_buffer_destroy(&fb); free_c(c, n); return; }
+    size_t fn = 4 + fb.size + 8; uint8_t* file = h_alloc(fn);
+    memcpy(file, "PAR1", 4); memcpy(file + 4, fb.data, fb.size);
+    uint32_t L = (uint32_t)fb.size; file[fn - 8] = (uint8_t)L; file[fn - 7] = (uint8_t)(L >> 8); file[fn - 6] = (uint8_t)(L >> 16); file[fn - 5] = (uint8_t)(L >> 24);
+    memcpy(file + fn - 4, "PAR1", 4);
+    carquet_reader_options_t ro; carquet_reader_options_init(&ro);
+    h_cpu_alarm(10, on_alarm);
+    carquet_reader_t* rd = carquet_reader_open_buffer(file, fn, &ro, &err);
+    h_cpu_alarm_off();
+    const carquet_schema_t* s = rd ? carquet_reader_schema(rd) : NULL;
+    if (!s) fprintf(h->out, " | err=1\n");
+    else {
+        fprintf(h->out, " | n=%d leaves=", s->num_leaves);
+        if (s->num_leaves == 0) fputc('-', h->out);
+        for (int i = 0; i < s->num_leaves; i++)
+            fprintf(h->out, "%s%d.%d.%d", i ? "," : "", s->leaf_indices[i], s->max_def_levels[i], s->max_rep_levels[i]);
+        fputc('\n', h->out);
+    }
+    if (rd) carquet_reader_close(rd);
+    h->n_lines++; carquet_buffer_destroy(&fb); free(file); free_c(c, n);
+}
+
 static void do_builder(hctx* h, const el_t* cols, int ncols) {
     fprintf(h->out, "schema_builder cols=");
     for (int i = 0; i < ncols; i++)
@@ -177,7 +209,7 @@ static void gen_schema(hctx* h) {
         int n = 0;
         int cap = 2 + (int)h_below(h, (t % 7 == 0) ? CAP - 2 : 10);
         gen_tree(h, e, &n, cap, 0, 1);
-        do_build(h, e, n, NULL); wf++;
+        do_build(h, e, n, NULL); wf++; if (t % 4 == 1) do_schema_file(h, e, n);
         if (t % 3 == 0) {
             char nm[24]; snprintf(nm, sizeof nm, "%c%d", 'a' + (int)h_below(h, 4), (int)h_below(h, 5));
             if (h_chance(h, 1, 2)) snprintf(nm, sizeof nm, "%s", e[h_below(h, (uint64_t)n)].name);      /* a name that occurs */
@@ -205,6 +237,26 @@ static void gen_schema(hctx* h) {
         for (int i = 0; i < depth; i++) { snprintf(e[n].name, sizeof e[n].name, "g%d", i); e[n].rep = i ? 1 : -1; e[n].ptype = -1; e[n].tlen = 0; e[n].nchild = 2147483647; n++; }
         snprintf(e[n].name, sizeof e[n].name, "leaf"); e[n].rep = 1; e[n].ptype = 1; e[n].tlen = 0; e[n].nchild = 0; n++;
         do_build(h, e, n, NULL); mal++;
+    }
+    /* many nested columns of small depth: LIST columns (optional group { repeated group { leaf } }), MAP-like columns
+     * (two leaves under the repeated group) and chains a{b{c{d{x}}}} - the depth of the tree stays 3..5 however many there are */
+    for (int kind = 0; kind < 3; kind++) {
+        int cols_n = kind == 2 ? 45 : 130, per = kind == 0 ? 3 : kind == 1 ? 4 : 5, nn = 0;
+        el_t* q = (el_t*)h_alloc(sizeof(el_t) * (size_t)(1 + cols_n * per));
+        snprintf(q[nn].name, sizeof q[nn].name, "schema"); q[nn].rep = -1; q[nn].ptype = -1; q[nn].tlen = 0; q[nn].nchild = cols_n; nn++;
+        for (int i = 0; i < cols_n; i++) {
+            if (kind < 2) {
+                snprintf(q[nn].name, sizeof q[nn].name, "l%d", i); q[nn].rep = 1; q[nn].ptype = -1; q[nn].tlen = 0; q[nn].nchild = 1; nn++;
+                snprintf(q[nn].name, sizeof q[nn].name, "list"); q[nn].rep = 2; q[nn].ptype = -1; q[nn].tlen = 0; q[nn].nchild = kind == 0 ? 1 : 2; nn++;
+                snprintf(q[nn].name, sizeof q[nn].name, "element"); q[nn].rep = 1; q[nn].ptype = 1 + i % 2; q[nn].tlen = 0; q[nn].nchild = 0; nn++;
+                if (kind == 1) { snprintf(q[nn].name, sizeof q[nn].name, "value"); q[nn].rep = 0; q[nn].ptype = 6; q[nn].tlen = 0; q[nn].nchild = 0; nn++; }
+            } else {
+                for (int d = 0; d < 4; d++) { snprintf(q[nn].name, sizeof q[nn].name, "%c%d", 'a' + d, i); q[nn].rep = d % 3; q[nn].ptype = -1; q[nn].tlen = 0; q[nn].nchild = 1; nn++; }
+                snprintf(q[nn].name, sizeof q[nn].name, "x%d", i); q[nn].rep = 1; q[nn].ptype = 2; q[nn].tlen = 0; q[nn].nchild = 0; nn++;
+            }
+        }
+        do_build(h, q, nn, NULL); do_schema_file(h, q, nn); wf++;
+        free(q);
     }
     /* root only / empty */
     { int n = 1; snprintf(e[0].name, sizeof e[0].name, "schema"); e[0].rep = -1; e[0].ptype = -1; e[0].tlen = 0; e[0].nchild = 0; do_build(h, e, n, NULL); do_build(h, e, 0, NULL); }
@@ -250,6 +302,7 @@ static int parse_els(const char* v, el_t** out) {
 }
 
 static int replay_schema(hctx* h, const h_line* l) {
+    if (!strcmp(l->op, "schema_file")) { el_t* e; int n = parse_els(h_in(l, "els"), &e); do_schema_file(h, e, n); free(e); return 1; }
     if (!strcmp(l->op, "schema_build") || !strcmp(l->op, "schema_find")) {
         el_t* e; int n = parse_els(h_in(l, "els"), &e);
         do_build(h, e, n, !strcmp(l->op, "schema_find") ? h_in(l, "name") : NULL);
